@@ -211,6 +211,12 @@ def body_of(style):
     return out
 
 
+def query_text(m):
+    """text of one media query; a comment next to it is not part of the query (where a comment inside a prelude is kept is not
+    something the DOM distinguishes)"""
+    return re.sub(r"\s+", " ", re.sub(r"/\*.*?\*/", " ", getattr(m, "value", m).mediaText, flags=re.S)).strip()
+
+
 def project_rule(r):
     t = r.typeString
     if t == "STYLE_RULE":
@@ -220,7 +226,7 @@ def project_rule(r):
     if t == "CHARSET_RULE":
         return {"k": "charset", "enc": r.encoding}
     if t == "IMPORT_RULE":
-        return {"k": "import", "href": r.href, "hreftype": r.hreftype or ("uri" if r.cssText.lower().startswith("@import url(") else "string"), "queries": [q for q in [getattr(m, "value", m).mediaText for m in r.media] if q != "all"],   # no media = all media
+        return {"k": "import", "href": r.href, "hreftype": r.hreftype or ("uri" if r.cssText.lower().startswith("@import url(") else "string"), "queries": [q for q in [query_text(m) for m in r.media] if q != "all"],   # no media = all media
                 "name": r.name if r.name else "none"}
     if t == "NAMESPACE_RULE":
         return {"k": "namespace", "prefix": r.prefix, "uri": r.namespaceURI}
@@ -229,7 +235,7 @@ def project_rule(r):
     if t == "FONT_FACE_RULE":
         return {"k": "fontface", "body": body_of(r.style)}
     if t == "MEDIA_RULE":
-        return {"k": "media", "queries": [getattr(m, "value", m).mediaText for m in r.media], "rules": [project_rule(x) for x in r.cssRules]}
+        return {"k": "media", "queries": [query_text(m) for m in r.media], "rules": [project_rule(x) for x in r.cssRules]}
     if t == "UNKNOWN_RULE":
         return {"k": "unknown", "text": re.sub(r"\s+", " ", r.cssText).strip()}
     if t == "MARGIN_RULE":
